@@ -26,8 +26,8 @@ def run(ctx):
     # free-running ThreadSanitizer companion (real threads, no scheduler): guards the assumption that scheduling points at the
     # synchronisation operations and the atomic-flag hooks are sufficient, i.e. that the pipeline has no unsynchronised sharing
     import os
-    ctx.run_harness(exes["h05tsan"], ["--iterations", "5" if ctx.tier == "quick" else "40"],
-                    env={"TSAN_OPTIONS": "halt_on_error=0:exitcode=66:suppressions=" + os.path.join(os.path.dirname(os.path.dirname(ctx.checkdir)), "engine", "vsched", "tsan.supp")}, timeout=150)
+    ctx.run_harness(exes["h05tsan"], ["--iterations", "5" if ctx.tier == "quick" else "40", "--deadline", "40" if ctx.tier == "quick" else "300"],
+                    env={"TSAN_OPTIONS": "halt_on_error=0:exitcode=66:suppressions=" + os.path.join(os.path.dirname(os.path.dirname(ctx.checkdir)), "engine", "vsched", "tsan.supp")}, timeout=120 if ctx.tier == "quick" else 500)
     ctx.run_harness(exe, [])
     ctx.assume("sequentially consistent scheduler; no spurious wake-ups; PBF test file written by the library's own Writer "
                "(the expectation is the abstract object list, not the Writer's output)")
